@@ -22,6 +22,10 @@ Decided:
               Read::{read, read_exact, read_to_end, ...} whose receiver is a File is dominated by a successful
               seek/rewind on a File in the same function; reviewed exceptions keyed by function (a freshly opened
               handle). Positional reads (read_at / read_exact_at) carry their own offset and are outside the rule.
+  UNIT-C07g  the "store whole below the threshold" decision counts characters: in the chunk planner (memvid::chunks) a
+             value compared with a constant named *_CHARS derives from `chars().count()`; a byte length (`str::len`)
+             on that side turns the 2400-character threshold into a 2400-byte one, and multi-byte text below the
+             threshold is chunked (its stored form is the normalised concatenation, not P).
 Not decided: byte equality of reads with puts (values), normalisation of text."""
 from . import lib, effects
 from .facts import Place, op_place
@@ -66,7 +70,34 @@ def cursor_discipline(ctx, F):
 INVERSE = {'Plain': (None, None), 'Zstd': ('zstd::encode_all', 'zstd::decode_all')}
 
 
+def threshold_unit(ctx, F):
+    ctx.rule('UNIT-C07g', 'chunk planner: a value compared with a *_CHARS constant is a character count, not a byte length')
+    n = 0
+    for fn in sorted(F.fns.values(), key=lambda x: x.path):
+        if 'memvid::chunks' not in fn.path or fn.r.get('derive'):
+            continue
+        for c in lib.comparisons(fn):
+            for a, b in ((c.sa(), c.sb()), (c.sb(), c.sa())):
+                names = [k.get('name') or '' for k in a.consts]
+                if not any(x.endswith('_CHARS') for x in names) or a.calls:
+                    continue
+                lens = [x for x in b.calls if x.name == 'len' and ('str' in (x.callee or '') or 'String' in (x.callee or ''))]
+                counts = [x for x in b.calls if x.name == 'count' and 'Chars' in (x.callee or '')]
+                if not lens and not counts:
+                    continue        # a running counter, not a measured text
+                n += 1
+                ctx.evaluations += 1
+                ctx.touch(fn, 1)
+                if counts:
+                    ctx.ok('UNIT-C07g', fn, 'compared with %s: chars().count()' % names[0].split('::')[-1], line=c.line)
+                else:
+                    ctx.bad('UNIT-C07g', fn, 'a byte length (str::len) is compared with %s: for multi-byte text the character threshold becomes a byte threshold, text below the threshold is chunked '
+                            'and reads back as its normalised concatenation instead of the stored bytes' % names[0].split('::')[-1], line=c.line, sink=names[0].split('::')[-1], detail='bytes-vs-chars-threshold')
+    ctx.floor('UNIT-C07g', n, 1, 'measured-text comparisons with *_CHARS constants in the chunk planner')
+
+
 def run(ctx):
+    threshold_unit(ctx, ctx.facts())
     ctx.rule('AGREE-C07a', 'encodings produced ⊆ encodings decoded, with inverse callee pairs; canonical_length = input length')
     ctx.rule('MPT-C07b', 'stored-payload reads return Ok only past the canonical_length equality test')
     ctx.rule('AGREE-C07c', 'canonical payload of a chunked document = concat(document_chunk_payloads ordered by (chunk_index, id))')
